@@ -183,7 +183,11 @@ class Exec:
                 # the very same list object as an earlier call was given
                 kw["universes"] = self.shared.setdefault(op["share"], self.gs(op["universes"]))
         attrs = {"sim_tag": op.get("tag", 0)}
-        attrs.update(op.get("attrs") or {})
+        for name, val in (op.get("attrs") or {}).items():
+            if isinstance(val, dict) and "$iter" in val:
+                # a one-shot iterator kept as an attribute value
+                val = iter(list(range(val["$iter"])))
+            attrs[name] = val
         v = cls(attributes=attrs, **kw)
         if cls is C.SlottedVertex:
             v.name = op["new"]
